@@ -1,5 +1,5 @@
 import Babble.Proofs.HGOrder
-import Babble.Proofs.HGFinal
+import Babble.Proofs.HGFame
 import Babble.Proofs.HGBlocks
 import Babble.Proofs.DagVote
 /-! # C03 — consensus output is a function of the event DAG only
@@ -83,5 +83,13 @@ theorem assigned_values_are_final (g : List Nat) (es1 es2 : List Babble.HG.Ev)
       (e.round.isSome → e'.round = e.round ∧ e'.wit = e.wit) ∧ (e.lamport.isSome → e'.lamport = e.lamport) ∧
       (e.rr.isSome → e'.rr = e.rr) :=
   Babble.HG.values_final g es1 es2 hnd hrr x e hx
+
+/-- **fame decisions are final** (operational model, any validator-set behaviour, any insertion
+    attempts): a witness recorded as famous or as not famous in the table of its round stays recorded
+    that way after every further insertion and consensus pass. -/
+theorem fame_decisions_are_final (s : Babble.HG.St) (es : List Babble.HG.Ev) (r : Int) (ri : Babble.HG.RoundInfo)
+    (x : String) (f : Babble.HG.Fame) (hg : s.getRound r = some ri) (hd : Babble.HG.Decd ri x f) :
+    ∃ ri', (Babble.HG.runAll s es).getRound r = some ri' ∧ Babble.HG.Decd ri' x f :=
+  Babble.HG.fame_final s es r ri x f hg hd
 
 end Babble.Props.C03
